@@ -8,47 +8,54 @@ import FitProofs.Crc
 namespace Fit
 open Fit.Crc
 
-/-- every normal end state of `p` carries the checksum register `c` advanced by the bytes read -/
-def Tracks (c : BitVec 16) : DP → Prop
-  | .done st => st.crc = c
+/-- the two counters `fill` maintains: running checksum and bytes consumed from the data area -/
+def DecSt.ctr (st : DecSt) : BitVec 16 × Nat := (st.crc, st.n)
+
+/-- every normal end state of `p` carries the counters `c` advanced by the bytes read -/
+def Tracks (c : BitVec 16 × Nat) : DP → Prop
+  | .done st => st.ctr = c
   | .exit _ => True
-  | .readBuf _ _ cont => ∀ bs, Tracks (update c bs) (cont bs)
+  | .readBuf k _ cont => ∀ bs, Tracks (update c.1 bs, c.2 + k) (cont bs)
 
 /-- a continuation that tracks from whatever state it is given -/
-def TracksK (cont : DecSt → DP) : Prop := ∀ st, Tracks st.crc (cont st)
+def TracksK (cont : DecSt → DP) : Prop := ∀ st, Tracks st.ctr (cont st)
 
 theorem rd_tracks (st : DecSt) (k : Nat) (cont : Bytes → DecSt → DP)
-    (h : ∀ bs, TracksK (cont bs)) : Tracks st.crc (rd st k cont) := by
+    (h : ∀ bs, TracksK (cont bs)) : Tracks st.ctr (rd st k cont) := by
   unfold rd
   intro bs
   exact h bs { st with n := st.n + k, crc := update st.crc bs }
 
-theorem Tracks.run (limit : Nat) (p : DP) (c : BitVec 16) (h : Tracks c p) (n : Nat) (s : SpecSt) (st : DecSt)
+theorem Tracks.run (limit : Nat) (p : DP) (c : BitVec 16 × Nat) (h : Tracks c p) (n : Nat) (s : SpecSt) (st : DecSt)
     (hr : (runSpecD limit p n s).1 = .inr st) :
-    st.crc = update c (s.rest.take ((runSpecD limit p n s).2.2.taken - s.taken)) := by
+    st.crc = update c.1 (s.rest.take ((runSpecD limit p n s).2.2.taken - s.taken)) ∧
+    st.n = c.2 + ((runSpecD limit p n s).2.1 - n) := by
   induction p generalizing c n s with
   | done x =>
     simp only [runSpecD] at hr ⊢
     cases hr
-    simp only [Nat.sub_self, List.take_zero]
-    exact h
+    simp only [Nat.sub_self, List.take_zero, Nat.add_zero]
+    have : st.ctr = c := h
+    rw [← this]
+    exact ⟨rfl, rfl⟩
   | exit e => simp [runSpecD] at hr
   | readBuf k onErr cont ih =>
     simp only [runSpecD] at hr ⊢
     by_cases hk : k ≤ limit - n ∧ k ≤ s.rest.length
     · simp only [hk, and_self, ↓reduceIte] at hr ⊢
-      have := ih (s.rest.take k) (update c (s.rest.take k)) (h _) (n + k)
+      have := ih (s.rest.take k) (update c.1 (s.rest.take k), c.2 + k) (h _) (n + k)
         { s with rest := s.rest.drop k, taken := s.taken + k } hr
-      rw [this, ← update_append]
-      have hm := (runSpecD_conserve limit (cont (s.rest.take k)) (n + k)
-        { s with rest := s.rest.drop k, taken := s.taken + k }).2.1
-      simp only at hm
+      have hm := runSpecD_conserve limit (cont (s.rest.take k)) (n + k)
+        { s with rest := s.rest.drop k, taken := s.taken + k }
+      simp only at hm this
+      obtain ⟨_, hm2, hm3, _⟩ := hm
+      generalize (runSpecD limit (cont (s.rest.take k)) (n + k)
+        { s with rest := s.rest.drop k, taken := s.taken + k }).2.2.taken = t at hm2 this ⊢
+      generalize (runSpecD limit (cont (s.rest.take k)) (n + k)
+        { s with rest := s.rest.drop k, taken := s.taken + k }).2.1 = n' at hm2 hm3 this ⊢
+      refine ⟨?_, by omega⟩
+      rw [this.1, ← update_append]
       congr 1
-      generalize (runSpecD limit (cont (s.rest.take k)) (n + k)
-        { s with rest := s.rest.drop k, taken := s.taken + k }).2.2.taken = t at hm ⊢
-      generalize (runSpecD limit (cont (s.rest.take k)) (n + k)
-        { s with rest := s.rest.drop k, taken := s.taken + k }).2.1 = n' at hm
-      simp only
       have e1 : t - (s.taken + k) = n' - (n + k) := by omega
       have e2 : t - s.taken = k + (n' - (n + k)) := by omega
       rw [e1, e2, List.take_add]
@@ -60,19 +67,19 @@ end Fit
 namespace Fit
 open Fit.Crc
 
-theorem TracksK.app {cont : DecSt → DP} (h : TracksK cont) (st : DecSt) (c : BitVec 16) (hc : st.crc = c) :
+theorem TracksK.app {cont : DecSt → DP} (h : TracksK cont) (st : DecSt) (c : BitVec 16 × Nat) (hc : st.ctr = c) :
     Tracks c (cont st) := by
   subst hc; exact h st
 
-theorem rd_tracks' (st : DecSt) (k : Nat) (cont : Bytes → DecSt → DP) (c : BitVec 16) (hc : st.crc = c)
+theorem rd_tracks' (st : DecSt) (k : Nat) (cont : Bytes → DecSt → DP) (c : BitVec 16 × Nat) (hc : st.ctr = c)
     (h : ∀ bs, TracksK (cont bs)) : Tracks c (rd st k cont) := by
   subst hc; exact rd_tracks st k cont h
 
 macro "crc_side" : tactic => `(tactic| first | rfl | (split <;> rfl) | (split <;> split <;> rfl))
 
 theorem parseFields_tracks (P : Profile) (dm : DefMsg) (known : Bool) (cont : Option Msg → DecSt → DP)
-    (h : ∀ m, TracksK (cont m)) (fds : List FieldDef) (m : Option Msg) (st : DecSt) (c : BitVec 16)
-    (hc : st.crc = c) :
+    (h : ∀ m, TracksK (cont m)) (fds : List FieldDef) (m : Option Msg) (st : DecSt) (c : BitVec 16 × Nat)
+    (hc : st.ctr = c) :
     Tracks c (parseFields P dm known fds m st cont) := by
   induction fds generalizing m st c with
   | nil => exact (h m).app st c hc
@@ -88,8 +95,8 @@ theorem parseFields_tracks (P : Profile) (dm : DefMsg) (known : Bool) (cont : Op
       · trivial
       · exact ih _ (st2.setTs _) _ rfl
 
-theorem skipDev_tracks (cont : DecSt → DP) (h : TracksK cont) (ds : List DevDesc) (st : DecSt) (c : BitVec 16)
-    (hc : st.crc = c) :
+theorem skipDev_tracks (cont : DecSt → DP) (h : TracksK cont) (ds : List DevDesc) (st : DecSt) (c : BitVec 16 × Nat)
+    (hc : st.ctr = c) :
     Tracks c (skipDev ds st cont) := by
   induction ds generalizing st c with
   | nil => exact h.app st c hc
@@ -100,9 +107,9 @@ theorem skipDev_tracks (cont : DecSt → DP) (h : TracksK cont) (ds : List DevDe
     exact ih st2 _ rfl
 
 theorem parseData_tracks (P : Profile) (hb : Nat) (compressed : Bool) (cont : Option Msg → DecSt → DP)
-    (h : ∀ m, TracksK (cont m)) (st : DecSt) (c : BitVec 16) (hc : st.crc = c) :
+    (h : ∀ m, TracksK (cont m)) (st : DecSt) (c : BitVec 16 × Nat) (hc : st.ctr = c) :
     Tracks c (parseData P hb compressed st cont) := by
-  have body : ∀ (dm : DefMsg) (m : Option Msg) (st : DecSt) (c : BitVec 16), st.crc = c →
+  have body : ∀ (dm : DefMsg) (m : Option Msg) (st : DecSt) (c : BitVec 16 × Nat), st.ctr = c →
       Tracks c (parseFields P dm (P.known dm.global) dm.fields m st fun m st =>
         skipDev dm.dev st fun st => cont m st) := by
     intro dm m st c hc
@@ -121,7 +128,7 @@ namespace Fit
 open Fit.Crc
 
 theorem addMsg_crc (P : Profile) (m : Option Msg) (st st' : DecSt) (h : addMsg P m st = some st') :
-    st'.crc = st.crc := by
+    st'.ctr = st.ctr := by
   unfold addMsg at h
   split at h
   · cases h; rfl
@@ -135,7 +142,7 @@ macro "rd_step" : tactic =>
   `(tactic| (refine rd_tracks' _ _ _ _ (by crc_side) ?_; intro _ _; dsimp only))
 
 theorem parseDefinition_tracks (P : Profile) (hb : Nat) (cont : DefMsg → DecSt → DP)
-    (h : ∀ dm, TracksK (cont dm)) (st : DecSt) (c : BitVec 16) (hc : st.crc = c) :
+    (h : ∀ dm, TracksK (cont dm)) (st : DecSt) (c : BitVec 16 × Nat) (hc : st.ctr = c) :
     Tracks c (parseDefinition P hb st cont) := by
   subst hc
   unfold parseDefinition
@@ -143,7 +150,7 @@ theorem parseDefinition_tracks (P : Profile) (hb : Nat) (cont : DefMsg → DecSt
   repeat (first | trivial | exact h _ _ | rd_step | split)
 
 theorem decodeFileData_tracks (P : Profile) (limit : Nat) (cont : DecSt → DP) (h : TracksK cont)
-    (fuel : Nat) (st : DecSt) (c : BitVec 16) (hc : st.crc = c) :
+    (fuel : Nat) (st : DecSt) (c : BitVec 16 × Nat) (hc : st.ctr = c) :
     Tracks c (decodeFileData P limit fuel st cont) := by
   induction fuel generalizing st c with
   | zero => exact h.app st c hc
@@ -153,7 +160,7 @@ theorem decodeFileData_tracks (P : Profile) (limit : Nat) (cont : DecSt → DP) 
     · apply rd_tracks' _ _ _ _ hc
       intro hbs st
       dsimp only
-      have data : ∀ (comp : Bool) (st : DecSt), Tracks st.crc (parseData P (hbs.headD 0).toNat comp st fun m st =>
+      have data : ∀ (comp : Bool) (st : DecSt), Tracks st.ctr (parseData P (hbs.headD 0).toNat comp st fun m st =>
           match addMsg P m st with
           | none => dpanic st
           | some st => decodeFileData P limit fuel st cont) := by
@@ -175,7 +182,7 @@ theorem decodeFileData_tracks (P : Profile) (limit : Nat) (cont : DecSt → DP) 
     · exact h.app st c hc
 
 theorem parseFileIdMsg_tracks (P : Profile) (cont : DecSt → DP) (h : TracksK cont)
-    (st : DecSt) (c : BitVec 16) (hc : st.crc = c) :
+    (st : DecSt) (c : BitVec 16 × Nat) (hc : st.ctr = c) :
     Tracks c (parseFileIdMsg P st cont) := by
   unfold parseFileIdMsg
   apply rd_tracks' _ _ _ _ hc
@@ -203,7 +210,7 @@ theorem parseFileIdMsg_tracks (P : Profile) (cont : DecSt → DP) (h : TracksK c
 
 /-- the record phase as a whole: whenever it ends normally, the state's checksum register is the
     initial one advanced by exactly the bytes consumed -/
-theorem recordsProg_tracks (P : Profile) (mode : Mode) (st : DecSt) : Tracks st.crc (recordsProg P mode st) := by
+theorem recordsProg_tracks (P : Profile) (mode : Mode) (st : DecSt) : Tracks st.ctr (recordsProg P mode st) := by
   unfold recordsProg
   apply parseFileIdMsg_tracks _ _ _ _ _ rfl
   intro st
@@ -245,7 +252,7 @@ theorem prog_success_residue (P : Profile) (m : Mode) (hm : m = .full ∨ m = .c
       { rest := s.rest.drop size, stop := s.stop, taken := s.taken + size, frameEnd := s.taken + size + st'.hdr.dataSize }
     have ht := Tracks.run st'.hdr.dataSize
       (recordsProg P .full { st' with file := some { hdr := st'.hdr, fileId := zeroFileId P }, unkInit := true })
-      st'.crc (recordsProg_tracks P .full { st' with file := some { hdr := st'.hdr, fileId := zeroFileId P }, unkInit := true }) 0
+      (st'.crc, st'.n) (recordsProg_tracks P .full { st' with file := some { hdr := st'.hdr, fileId := zeroFileId P }, unkInit := true }) 0
       { rest := s.rest.drop size, stop := s.stop, taken := s.taken + size, frameEnd := s.taken + size + st'.hdr.dataSize }
     generalize runSpecD st'.hdr.dataSize
       (recordsProg P .full { st' with file := some { hdr := st'.hdr, fileId := zeroFileId P }, unkInit := true }) 0
@@ -255,7 +262,7 @@ theorem prog_success_residue (P : Profile) (m : Mode) (hm : m = .full ∨ m = .c
     | inl e => exact absurd hs (toOutcome_not_success e)
     | inr x =>
       simp only at hs hd ht
-      have hx := ht x rfl
+      have hx := (ht x rfl).1
       by_cases hn : n = st'.hdr.dataSize
       · simp only [hn, ↓reduceIte] at hs
         obtain ⟨_, _, _, hres⟩ := checkCRC_success x s' hs
